@@ -4,7 +4,8 @@
 //! `ValidAnswer` is evaluated on the implementation's answer here (oracle, written from the property
 //! text) and by the Lean definition (stream `valid`, which ties the two), and every description
 //! produced or parsed goes through the text round trip (stream `rt` = real parser + printer vs
-//! `RtcModel.SdpLines`, oracle = parse∘print is the identity up to the printer's stable partition).
+//! `RtcModel.SdpLines`; oracle = parse∘print is the identity, literally; where only the printer's stable
+//! transport-first partition differs the failure is `rt:attribute-order:<origin>`, a known finding).
 use super::c09::sdpgen::*;
 use crate::{Args, Rng, Run};
 use rustrtc::verif_hooks::peer::PeerSnapshot;
@@ -65,6 +66,12 @@ pub struct LocalCfg {
     pub trxs: Vec<(MediaKind, TransceiverDirection)>,
     /// kinds for which a track is added with `add_track` (a transceiver WITH a sender)
     pub tracks: Vec<MediaKind>,
+    /// `media_capabilities.image` / `.application` (round 2)
+    pub image: Vec<rustrtc::config::T38Capability>,
+    pub sctp_port: Option<u16>,
+    /// the connection builds an offer of its own first (`create_offer`, discarded): its transceivers then carry
+    /// locally assigned mids when the remote offer arrives (a connection that has been an offerer)
+    pub offered_first: bool,
 }
 
 fn acap(pt: u8, name: &str, clock: u32, ch: u8, fmtp: Option<&str>) -> AudioCapability {
@@ -95,7 +102,18 @@ fn gen_cfg(rng: &mut Rng) -> LocalCfg {
     let n = match rng.below(10) { 0..=3 => 0, 4..=6 => 1, 7..=8 => 2, _ => 4 };
     let trxs = (0..n).map(|_| (*rng.pick(&kinds), *rng.pick(&dirs))).collect();
     let tracks = match rng.below(8) { 0 => vec![MediaKind::Audio], 1 => vec![MediaKind::Video], 2 => vec![MediaKind::Audio, MediaKind::Video], _ => vec![] };
-    LocalCfg { mode, legacy: rng.chance(1, 6), mux_require: !rng.chance(1, 6), audio, video, caps_set, trxs, tracks }
+    let legacy = rng.chance(1, 6);
+    let mux_require = !rng.chance(1, 6);
+    let image = match rng.below(6) {
+        0 => vec![rustrtc::config::T38Capability { payload_type: 99, version: 2, max_bitrate: 9600, rate_management: rustrtc::config::T38FaxRateManagement::LocalTCF,
+                   max_buffer: 512, max_datagram: 176, udp_ec: rustrtc::config::T38UdpEC::T38UDPFEC, fmtp: None }],
+        1 => vec![rustrtc::config::T38Capability::default(), rustrtc::config::T38Capability { payload_type: 100, version: 3, max_bitrate: 4800,
+                   rate_management: rustrtc::config::T38FaxRateManagement::TransferredTCF, max_buffer: 200, max_datagram: 72, udp_ec: rustrtc::config::T38UdpEC::T38UDPRedundancy, fmtp: None }],
+        _ => vec![],
+    };
+    let sctp_port = if rng.chance(1, 5) { Some(*rng.pick(&[5001u16, 9, 65535])) } else { None };
+    let offered_first = rng.chance(1, 8);
+    LocalCfg { mode, legacy, mux_require, audio, video, caps_set, trxs, tracks, image, sctp_port, offered_first }
 }
 
 fn rtc_config(c: &LocalCfg) -> RtcConfiguration {
@@ -107,7 +125,8 @@ fn rtc_config(c: &LocalCfg) -> RtcConfiguration {
     r.sdp_compatibility = if c.legacy { SdpCompatibilityMode::LegacySip } else { SdpCompatibilityMode::Standard };
     r.rtcp_mux_policy = if c.mux_require { RtcpMuxPolicy::Require } else { RtcpMuxPolicy::Negotiate };
     if c.caps_set {
-        r.media_capabilities = Some(MediaCapabilities { audio: c.audio.clone(), video: c.video.clone(), application: None, image: vec![] });
+        r.media_capabilities = Some(MediaCapabilities { audio: c.audio.clone(), video: c.video.clone(),
+            application: c.sctp_port.map(|p| rustrtc::config::ApplicationCapability { sctp_port: p }), image: c.image.clone() });
     }
     r
 }
@@ -118,8 +137,11 @@ fn cfg_s(c: &LocalCfg) -> String {
         enc_opt(&a.fmtp), list("^", a.rtcp_fbs.iter().map(|f| enc(f)).collect()))).collect();
     let vc: Vec<String> = video.iter().map(|v| format!("{},{},{},{},{},{}", v.payload_type, enc(&v.codec_name), v.clock_rate, enc_opt(&v.fmtp),
         list("^", v.rtcp_fbs.iter().map(|f| enc(f)).collect()), v.rtx_payload_type.map(|r| r.to_string()).unwrap_or("~".into()))).collect();
-    format!("{},{},{},5000|{}|{}", match c.mode { TransportMode::WebRtc => "w", TransportMode::Srtp => "s", TransportMode::Rtp => "r" },
-        c.legacy as u8, c.mux_require as u8, list("+", ac), list("+", vc))
+    let ic: Vec<String> = if c.caps_set { c.image.iter().map(|t| format!("{},{},{},{},{},{},{}", t.payload_type, t.version, t.max_bitrate, enc(&t.rate_management.to_string()),
+        t.max_buffer, t.max_datagram, enc(&t.udp_ec.to_string()))).collect() } else { vec![] };
+    let port = if c.caps_set { c.sctp_port.unwrap_or(rustrtc::config::ApplicationCapability::default().sctp_port) } else { rustrtc::config::ApplicationCapability::default().sctp_port };
+    format!("{},{},{},{}|{}|{}|{}", match c.mode { TransportMode::WebRtc => "w", TransportMode::Srtp => "s", TransportMode::Rtp => "r" },
+        c.legacy as u8, c.mux_require as u8, port, list("+", ac), list("+", vc), list("+", ic))
 }
 
 // ------------------------------------------------------------------------------------------------
@@ -181,6 +203,27 @@ fn gen_offer(rng: &mut Rng) -> DescSpec {
     let mut d = DescSpec::new(secs);
     d.bundle = all_mids && rng.chance(7, 10);
     d.session_level_fp = rng.chance(1, 4);
+    // --- round 2: shapes of the quantifier the first generator never produced
+    // a BUNDLE group that leaves one section out
+    if d.bundle && d.sections.len() > 1 && rng.chance(1, 6) { d.bundle_omit = vec![rng.below(d.sections.len() as u64) as usize]; }
+    // a=setup at session level only
+    if rng.chance(1, 10) {
+        d.session_setup = Some(*rng.pick(&["actpass", "active", "passive"]));
+        for s in &mut d.sections { s.setup = None; }
+    } else if d.sections.len() > 1 && rng.chance(1, 10) {
+        // sections with differing a=setup
+        for s in &mut d.sections { s.setup = Some(*rng.pick(&["actpass", "active", "passive"])); }
+    }
+    // extmap forms: value-less attribute, direction-qualified id, a URI that contains a probed URI
+    for s in &mut d.sections {
+        if matches!(s.kind, MediaKind::Audio | MediaKind::Video) && rng.chance(1, 12) {
+            match rng.below(3) {
+                0 => { let k = rng.below(s.extmaps.len() as u64 + 1) as usize; s.extmaps.insert(k, (String::new(), String::new())); }
+                1 => { s.extmaps.retain(|e| e.0 != "3"); s.extmaps.insert(0, ("3/recvonly".into(), URI_ABS_SEND_TIME.to_string())); }
+                _ => { s.extmaps.retain(|e| e.0 != "13"); s.extmaps.insert(0, ("13".into(), format!("{URI_SDES_MID}-x"))); }
+            }
+        }
+    }
     d
 }
 
@@ -240,20 +283,37 @@ fn group_mids(d: &SessionDescription) -> Option<Vec<String>> {
         .and_then(|a| a.value.as_ref()).map(|v| v.split_whitespace().skip(1).map(|s| s.to_string()).collect())
 }
 
-pub struct Verdict { pub n: bool, pub al: bool, pub pt: bool, pub rx: bool, pub ex: bool, pub mx: bool, pub di: bool, pub su: bool, pub bu: bool, pub fails: Vec<(String, String)> }
+pub struct Verdict { pub n: bool, pub al: bool, pub pt: bool, pub rx: bool, pub ex: bool, pub mx: bool, pub di: bool, pub su: bool, pub bu: bool, pub cb: bool, pub fails: Vec<(String, String)> }
 impl Verdict {
     fn all(&self) -> bool { self.n && self.al && self.pt && self.rx && self.ex && self.mx && self.di && self.su && self.bu }
     fn text(&self) -> String {
-        format!("{} n{} al{} pt{} rx{} ex{} mx{} di{} su{} bu{}", self.all() as u8, self.n as u8, self.al as u8, self.pt as u8, self.rx as u8,
-            self.ex as u8, self.mx as u8, self.di as u8, self.su as u8, self.bu as u8)
+        format!("{} n{} al{} pt{} rx{} ex{} mx{} di{} su{} bu{} cb{}", self.all() as u8, self.n as u8, self.al as u8, self.pt as u8, self.rx as u8,
+            self.ex as u8, self.mx as u8, self.di as u8, self.su as u8, self.bu as u8, self.cb as u8)
     }
 }
 
-/// `class` describes the negotiation ("first" / "re") and configuration for the signatures.
-pub fn valid_answer(offer: &SessionDescription, ans: &SessionDescription, renegotiation: bool, legacy: bool) -> Verdict {
-    let mut v = Verdict { n: true, al: true, pt: true, rx: true, ex: true, mx: true, di: true, su: true, bu: true, fails: vec![] };
-    let neg = if renegotiation { "renegotiation" } else { "first-negotiation" };
-    // mid scheme of the offer (part of every signature: the defects below depend on it)
+/// what the oracle knows about the answerer besides the two descriptions: used ONLY to name the root cause of a
+/// failure in its signature (so that a failure with another cause is a new signature), never to excuse one.
+pub struct Ctx<'a> { pub renegotiation: bool, pub cfg: &'a LocalCfg, pub first_offer: Option<&'a SessionDescription>, pub trx_kinds: Vec<MediaKind>, pub trx_mids: Vec<(MediaKind, Option<String>)> }
+
+fn local_audio(c: &LocalCfg) -> Vec<AudioCapability> { if c.caps_set && !c.audio.is_empty() { c.audio.clone() } else { vec![AudioCapability::default()] } }
+fn local_video(c: &LocalCfg) -> Vec<VideoCapability> { if c.caps_set && !c.video.is_empty() { c.video.clone() } else { vec![VideoCapability::default()] } }
+/// (pt, NAME, clock) of every rtpmap of the section
+fn bindings(m: &MediaSection) -> Vec<(String, String, String)> {
+    vals(m, "rtpmap").iter().filter_map(|v| { let (pt, rest) = v.split_once(' ')?; let mut it = rest.trim().split('/');
+        Some((pt.to_string(), it.next()?.to_ascii_uppercase(), it.next().unwrap_or("").to_string())) }).collect()
+}
+/// the offerer's `a=setup` for a section: media level, else session level
+fn offered_setup<'a>(offer: &'a SessionDescription, o: &'a MediaSection) -> (Option<&'a str>, bool) {
+    if let Some(v) = vals(o, "setup").first() { return (Some(*v), false); }
+    let sv = offer.session.attributes.iter().find(|a| a.key == "setup").and_then(|a| a.value.as_deref());
+    (sv, sv.is_some())
+}
+
+pub fn valid_answer(offer: &SessionDescription, ans: &SessionDescription, cx: &Ctx) -> Verdict {
+    let mut v = Verdict { n: true, al: true, pt: true, rx: true, ex: true, mx: true, di: true, su: true, bu: true, cb: true, fails: vec![] };
+    let neg = if cx.renegotiation { "renegotiation" } else { "first-negotiation" };
+    let legacy = cx.cfg.legacy;
     let nm = offer.media_sections.iter().filter(|m| !m.mid.is_empty()).count();
     let ms = if nm == offer.media_sections.len() { "mids-all" } else if nm == 0 { "mids-none" } else { "mids-mixed" };
     if offer.media_sections.len() != ans.media_sections.len() {
@@ -261,8 +321,13 @@ pub fn valid_answer(offer: &SessionDescription, ans: &SessionDescription, renego
         v.fails.push(("ans:count".into(), format!("offer has {} sections, answer {}", offer.media_sections.len(), ans.media_sections.len())));
     }
     let offered_bundle = group_mids(offer).is_some();
+    let setups: Vec<Option<&str>> = offer.media_sections.iter().map(|o| offered_setup(offer, o).0).collect();
+    let setups_differ = setups.iter().any(|x| *x != setups[0]);
     for (i, (o, a)) in offer.media_sections.iter().zip(ans.media_sections.iter()).enumerate() {
         let k = kind_ch(o.kind);
+        // the section `find(|s| s.mid == mid)` returns for this section's mid: itself, unless an earlier section has the same
+        // (typically empty) mid
+        let first_same_mid = offer.media_sections.iter().position(|m| m.mid == o.mid).unwrap_or(i);
         if o.kind != a.kind { v.al = false; v.fails.push((format!("ans:kind:{neg}:{ms}"), format!("section {i}: offer {:?}, answer {:?}", o.kind, a.kind))); }
         if o.mid != a.mid {
             v.al = false;
@@ -270,35 +335,115 @@ pub fn valid_answer(offer: &SessionDescription, ans: &SessionDescription, renego
                 else if o.mid.is_empty() { "added-to-midless-offer" } else { "other" };
             v.fails.push((format!("ans:mids:{class}"), format!("section {i}: offer mid {:?}, answer mid {:?}", o.mid, a.mid)));
         }
-        if let Some(f) = a.formats.iter().find(|f| !o.formats.contains(f)) {
-            v.pt = false;
-            v.fails.push((format!("ans:codecs:{neg}:{k}"), format!("section {i}: answer format {f} was not offered (offer {:?}, answer {:?})", o.formats, a.formats)));
+        // a MID-less section is matched by kind; if that transceiver carries a mid of its own (an earlier create_offer) every
+        // lookup `find(|s| s.mid == mid)` is made with THAT mid and lands on whatever offered section happens to have it
+        let via_own_mid: Vec<usize> = if o.mid.is_empty() { (0..offer.media_sections.len()).filter(|j| { let m = &offer.media_sections[*j].mid;
+            !m.is_empty() && cx.trx_mids.iter().any(|(k2, tm)| *k2 == o.kind && tm.as_deref() == Some(m.as_str())) }).collect() } else { vec![] };
+        // ---- payload types
+        let unoffered = a.formats.iter().find(|f| !o.formats.contains(f));
+        let rebound = { let ob = bindings(o); bindings(a).into_iter().find(|(pt, n, c)| o.formats.contains(pt) && ob.iter().any(|(p2, n2, c2)| p2 == pt && (n2 != n || c2 != c))) };
+        if unoffered.is_some() || rebound.is_some() {
+            let cause = match o.kind {
+                MediaKind::Audio => {
+                    let la = local_audio(cx.cfg);
+                    let local_pts: Vec<String> = la.iter().map(|c| c.payload_type.to_string()).collect();
+                    let common = |sec: &MediaSection| sec.to_audio_capabilities().iter().any(|r| la.iter().any(|l| l.codec_name.eq_ignore_ascii_case(&r.codec_name) && l.clock_rate == r.clock_rate && l.channels == r.channels));
+                    // what the answer looks like when section `sec` is the one whose codecs were intersected with the local list
+                    let consistent = |sec: &MediaSection| if common(sec) { a.formats.iter().all(|f| sec.formats.contains(f)) } else { a.formats == local_pts };
+                    let first_audio = offer.media_sections.iter().position(|m| m.kind == MediaKind::Audio).unwrap_or(i);
+                    // a transceiver of the kind carries a mid that no offered section has (assigned by an earlier create_offer):
+                    // matched to a mid-less section by kind, it looks the remote section up by ITS mid and finds none
+                    let own_mid = cx.trx_mids.iter().any(|(k2, m)| *k2 == o.kind && m.as_deref().is_some_and(|m| !m.is_empty()));
+                    if o.mid.is_empty() && own_mid && a.formats == local_pts { "own-mid-lookup-misses-midless-section" }
+                    else if via_own_mid.iter().any(|j| offer.media_sections[*j].kind == MediaKind::Audio && consistent(&offer.media_sections[*j])) { "own-mid-lookup-hits-another-section" }
+                    else if o.mid.is_empty() && first_audio != i && consistent(&offer.media_sections[first_audio]) { "midless-first-audio-section-consulted" }
+                    else if !o.mid.is_empty() && first_same_mid != i { "duplicate-mid" }
+                    else if !common(o) && a.formats == local_pts { "no-common-codec-local-list" }
+                    else if common(o) { "common-codec-exists" } else { "other" }
+                }
+                MediaKind::Video => {
+                    let rtx_pts: Vec<String> = apt_pairs(a).iter().map(|p| p.0.to_string()).collect();
+                    let prim: Vec<&String> = a.formats.iter().filter(|f| !rtx_pts.contains(f)).collect();
+                    let lv: Vec<String> = local_video(cx.cfg).iter().filter(|c| !c.codec_name.eq_ignore_ascii_case("rtx")).map(|c| c.payload_type.to_string()).collect();
+                    if prim.len() == lv.len() && prim.iter().zip(lv.iter()).all(|(x, y)| *x == y) { "local-video-list-not-intersected" } else { "other" }
+                }
+                MediaKind::Image => if o.formats == ["t38"] && !a.formats.is_empty() && a.formats.iter().all(|f| f.parse::<u8>().is_ok()) { "t38-answered-as-number" } else { "other" },
+                MediaKind::Application => "other",
+            };
+            if let Some(f) = unoffered {
+                v.pt = false;
+                let head = if o.kind == MediaKind::Image { "ans:image-format".to_string() } else { format!("ans:codecs:{neg}:{k}") };
+                v.fails.push((format!("{head}:{cause}"), format!("section {i}: answer format {f} was not offered (offer {:?}, answer {:?})", o.formats, a.formats)));
+            }
+            if let Some((pt, n, c)) = rebound {
+                v.cb = false;
+                v.fails.push((format!("ans:pt-rebound:{neg}:{k}:{cause}"), format!("section {i}: offered payload type {pt} is answered as {n}/{c} (offer rtpmaps {:?})", vals(o, "rtpmap"))));
+            }
         }
+        // ---- RTX
         let (oa, aa) = (apt_pairs(o), apt_pairs(a));
-        if let Some(p) = aa.iter().find(|p| !oa.contains(p)) { v.rx = false; v.fails.push((format!("ans:rtx:{neg}:{ms}"), format!("section {i}: apt {:?} not offered {:?}", p, oa))); }
+        if let Some(p) = aa.iter().find(|p| !oa.contains(p)) {
+            v.rx = false;
+            let src = if first_same_mid != i { Some(first_same_mid) } else { None };
+            let cause = match src { Some(j) if aa.iter().all(|q| apt_pairs(&offer.media_sections[j]).contains(q)) => "taken-from-first-section-with-same-mid",
+                _ if via_own_mid.iter().any(|j| aa.iter().all(|q| apt_pairs(&offer.media_sections[*j]).contains(q))) => "taken-from-section-with-the-transceivers-own-mid",
+                // the transceiver's own mid names no offered section: merge_remote_rtx_into_answer falls back to the FIRST video section
+                _ if o.mid.is_empty() && cx.trx_mids.iter().any(|(k2, m)| *k2 == o.kind && m.as_deref().is_some_and(|m| !m.is_empty()))
+                    && offer.media_sections.iter().find(|m| m.kind == MediaKind::Video).is_some_and(|fv| aa.iter().all(|q| apt_pairs(fv).contains(q))) => "own-mid-lookup-falls-back-to-first-video-section",
+                _ => "other" };
+            v.fails.push((format!("ans:rtx:{neg}:{cause}"), format!("section {i}: apt {:?} not offered {:?}", p, oa)));
+        }
+        // ---- header extensions
         let (oe, ae) = (ext_ids(o), ext_ids(a));
-        if let Some(id) = ae.iter().find(|id| !oe.contains(id)) { v.ex = false; v.fails.push((format!("ans:extmap-id-not-offered:{k}:{ms}"), format!("section {i}: id {id}, offered {:?}", oe))); }
+        if let Some(id) = ae.iter().find(|id| !oe.contains(id)) {
+            v.ex = false;
+            let cause = if first_same_mid != i && ae.iter().all(|x| ext_ids(&offer.media_sections[first_same_mid]).contains(x)) { "taken-from-first-section-with-same-mid" }
+                else if via_own_mid.iter().any(|j| ae.iter().all(|x| ext_ids(&offer.media_sections[*j]).contains(x))) { "taken-from-section-with-the-transceivers-own-mid" } else { "other" };
+            v.fails.push((format!("ans:extmap-id-not-offered:{k}:{cause}"), format!("section {i}: id {id}, offered {:?}", oe)));
+        }
         let mut s = ae.clone(); s.sort(); s.dedup();
         if s.len() != ae.len() { v.ex = false; v.fails.push((format!("ans:extmap-duplicate-id:{k}:{ms}"), format!("section {i}: {:?}", ae))); }
         let has = |m: &MediaSection, key: &str| m.attributes.iter().any(|x| x.key == key);
         if has(a, "rtcp-mux") && !has(o, "rtcp-mux") { v.mx = false; v.fails.push((format!("ans:rtcp-mux-not-offered:{k}:{ms}"), format!("section {i}"))); }
+        // ---- direction
         let dir_ok = match o.direction {
             Direction::SendRecv => true,
             Direction::SendOnly => matches!(a.direction, Direction::RecvOnly | Direction::Inactive),
             Direction::RecvOnly => matches!(a.direction, Direction::SendOnly | Direction::Inactive),
             Direction::Inactive => a.direction == Direction::Inactive,
         };
-        if !dir_ok { v.di = false; v.fails.push((format!("ans:direction:{ms}"), format!("section {i}: offered {}, answered {}", dir_s(o.direction), dir_s(a.direction)))); }
+        if !dir_ok {
+            v.di = false;
+            // known root cause: on a re-offer without mids the three matching loops (handle_reinvite, set_remote_description,
+            // create_answer) pick different transceivers when the first negotiation left a transceiver of the kind unbound (mid None):
+            // set_remote_description binds THAT one first on the re-offer, create_answer the first of the kind
+            let spare = cx.first_offer.is_some_and(|f| cx.trx_kinds.iter().filter(|x| **x == o.kind).count() > f.media_sections.iter().filter(|m| m.kind == o.kind).count());
+            let cause = if cx.renegotiation && o.mid.is_empty() && spare { "midless-reoffer-rebinds-spare-transceiver" } else { "other" };
+            v.fails.push((format!("ans:direction:{neg}:{cause}"), format!("section {i}: offered {}, answered {}", dir_s(o.direction), dir_s(a.direction))));
+        }
+        // ---- DTLS setup
         if let Some(su) = vals(a, "setup").first() {
-            let os = vals(o, "setup").first().copied();
+            let (os, session_level) = offered_setup(offer, o);
             let ok = *su != "actpass" && match os { Some("active") => *su == "passive", Some("passive") => *su == "active", _ => *su == "active" || *su == "passive" };
-            if !ok { v.su = false; v.fails.push((format!("ans:setup:{}-answered-{}:{neg}", os.unwrap_or("none"), su), format!("section {i}"))); }
+            if !ok {
+                v.su = false;
+                let first_setup = cx.first_offer.and_then(|f| f.media_sections.iter().find_map(|m| vals(m, "setup").first().copied()));
+                let cause = if session_level { "session-level-setup-not-read" }
+                    else if setups_differ { "sections-differ-first-setup-wins" }
+                    else if cx.renegotiation && first_setup != os { "role-kept-from-first-negotiation" } else { "other" };
+                v.fails.push((format!("ans:setup:{}-answered-{}:{cause}", os.unwrap_or("none"), su), format!("section {i}")));
+            }
         }
     }
     if let Some(g) = ans.session.attributes.iter().find(|a| a.key == "group").and_then(|a| a.value.as_ref()) {
         let am: Vec<&str> = g.split_whitespace().skip(1).collect();
-        let ok = match group_mids(offer) { Some(om) => am.iter().all(|m| om.iter().any(|x| x == m)), None => false };
-        if !ok { v.bu = false; v.fails.push(("ans:bundle-not-offered".into(), format!("answer group {g}"))); }
+        match group_mids(offer) {
+            Some(om) => if let Some(m) = am.iter().find(|m| !om.iter().any(|x| x == *m)) {
+                v.bu = false;
+                v.fails.push(("ans:bundle:section-outside-offered-group-bundled".into(), format!("answer group `{g}` lists mid {m}; the offer's group is {:?}", om)));
+            },
+            None => { v.bu = false; v.fails.push(("ans:bundle:group-not-offered".into(), format!("answer group {g}"))); }
+        }
     }
     v
 }
@@ -341,8 +486,13 @@ fn round_trip_desc(run: &mut Run, case: &str, origin: &str, d: &SessionDescripti
     match SessionDescription::parse(d.sdp_type, &t1) {
         Err(e) => run.fail(&format!("rt:reparse-fails:{origin}"), case, &format!("printed description does not parse: {e}")),
         Ok(d2) => {
+            if d2 != *d && d2 == norm(d) {
+                // the literal clause fails; the ONLY difference is the printer's transport-first attribute partition
+                run.fail(&format!("rt:attribute-order:{origin}"), case, "parse(print(d)) != d: the printer moved ice-ufrag / ice-pwd / fingerprint / setup / candidate ahead of the other attributes of a section");
+                run.count("rt_not_exact_attribute_order");
+            } else if d2 == *d { run.count("rt_exact"); }
             if d2 != norm(d) {
-                let what = if d2.session != d.session { "session" } else if d2.media_sections.len() != d.media_sections.len() { "section-count" }
+                let what = if d2.session != d.session { if d.session.attributes.iter().any(|a| a.key.contains(':')) { "session:colon-in-unknown-line-prefix" } else { "session" } } else if d2.media_sections.len() != d.media_sections.len() { "section-count" }
                     else {
                         let n = norm(d);
                         let i = (0..n.media_sections.len()).find(|i| n.media_sections[*i] != d2.media_sections[*i]).unwrap_or(0);
@@ -386,7 +536,7 @@ fn err_class(e: &rustrtc::RtcError) -> String {
 }
 
 /// answer to the current remote offer: snapshot → real create_answer → `ans`, `valid`, `rt`, oracles
-async fn answer_step(run: &mut Run, case: &str, c: &LocalCfg, pc: &PeerConnection, offer: &SessionDescription, reneg: bool) -> Option<SessionDescription> {
+async fn answer_step(run: &mut Run, case: &str, c: &LocalCfg, pc: &PeerConnection, offer: &SessionDescription, reneg: bool, first_offer: Option<&SessionDescription>) -> Option<SessionDescription> {
     let snap = pc.verif_snapshot();
     let remote = snap.remote_description.as_ref().map(desc_s).unwrap_or("-".into());
     let input = format!("{case} {} {} {} {} {} {}", cfg_s(c), trxs_s(&snap), snap.next_mid, snap.local_description.is_some() as u8, role_s(snap.dtls_role), remote);
@@ -397,7 +547,8 @@ async fn answer_step(run: &mut Run, case: &str, c: &LocalCfg, pc: &PeerConnectio
             run.case("ans", &input, &a_s, true);
             run.count(if reneg { "answers_renegotiation" } else { "answers_first" });
             run.count(&format!("answer_sections_{}", ans.media_sections.len()));
-            let v = valid_answer(offer, &ans, reneg, c.legacy);
+            let cx = Ctx { renegotiation: reneg, cfg: c, first_offer, trx_kinds: snap.transceivers.iter().map(|t| t.kind).collect(), trx_mids: snap.transceivers.iter().map(|t| (t.kind, t.mid.clone())).collect() };
+            let v = valid_answer(offer, &ans, &cx);
             run.case("valid", &format!("{case} {} {}", desc_s(offer), a_s), &v.text(), !v.all());
             if v.all() { run.count("answers_valid"); } else { run.count("answers_invalid"); }
             for (sig, detail) in v.fails { run.fail(&sig, case, &detail); }
@@ -424,15 +575,20 @@ pub async fn exec_case(run: &mut Run, case: &str, ac: &AnsCase) {
     }
     run.count(&format!("mode_{}", match c.mode { TransportMode::WebRtc => "webrtc", TransportMode::Srtp => "srtp", TransportMode::Rtp => "rtp" }));
     if c.legacy { run.count("cfg_legacy_sip"); }
+    if c.offered_first && (!c.trxs.is_empty() || !c.tracks.is_empty()) {
+        if pc.create_offer().await.is_ok() { run.count("connections_that_offered_first"); }
+    }
     let mut reneg = false;
+    let mut first: Option<SessionDescription> = None;
     for spec in ac.offer1.iter().chain(std::iter::once(&ac.offer)) {
         let text = render(&c.mode, spec);
         round_trip_text(run, case, "offer-text", &text);
         let offer = match SessionDescription::parse(SdpType::Offer, &text) { Ok(o) => o, Err(_) => { run.count("offer_unparsable"); break; } };
         if let Err(e) = pc.set_remote_description(offer.clone()).await { run.count(&format!("offer_rejected:{}", e.to_string().split(':').next().unwrap_or("?"))); break; }
         run.count(&format!("offer_sections_{}", offer.media_sections.len()));
-        let Some(ans) = answer_step(run, case, c, &pc, &offer, reneg).await else { break };
+        let Some(ans) = answer_step(run, case, c, &pc, &offer, reneg, first.as_ref()).await else { break };
         if pc.set_local_description(ans).is_err() { run.count("answer_not_accepted_locally"); break; }
+        if first.is_none() { first = Some(offer.clone()); }
         reneg = true;
     }
     pc.close();
@@ -616,22 +772,41 @@ pub fn run(args: &Args) {
     for i in 0..nm {
         let lines: Vec<&str> = base.split("\r\n").filter(|l| !l.is_empty()).collect();
         let mut ls: Vec<String> = lines.iter().map(|s| s.to_string()).collect();
-        match rng.below(9) {
+        let nmut = if rng.chance(1, 3) { 2 } else { 1 }; // two faults in one text: which error is reported first
+        for _ in 0..nmut { match rng.below(9) {
             0 => { let k = rng.below(ls.len() as u64) as usize; ls.remove(k); }
             1 => { let k = rng.below(ls.len() as u64) as usize; ls[k] = ls[k].replace('=', " "); }
-            2 => { let k = rng.below(ls.len() as u64) as usize; ls.insert(k, (*rng.pick(&["b=AS:128", "i=title", "a=foo", "a=foo:", "a=:x", "k=clear:abc", "a=mid", "a=sendonly", "x", "=", "a=", "z=0 0"])).to_string()); }
+            2 => { let k = rng.below(ls.len() as u64) as usize; ls.insert(k, (*rng.pick(&["b=AS:128", "i=title", "a=foo", "a=foo:", "a=:x", "k=clear:abc", "b:x=y", "a:b=c", "i:=", "a=mid", "a=sendonly", "x", "=", "a=", "z=0 0"])).to_string()); }
             3 => { ls[1] = (*rng.pick(&["o=- 1 2 IN IP6 ::1", "o=- 18446744073709551616 2 IN IP4 1.2.3.4", "o=- 1 2 in ip4 h", "o=a b c", "o=- 1 2 IN IP4 a extra", "o=-  1  2  IN  IP4  a"])).to_string(); }
             4 => { for l in ls.iter_mut() { if l.starts_with("m=") { *l = (*rng.pick(&["m=audio 9 RTP/AVP", "m=audio 65536 RTP/AVP 0", "m=text 9 RTP/AVP 0", "m=audio  9  RTP/AVP  0  8", "m=video +5 x 96 97"])).to_string(); break; } } }
             5 => { ls[0] = (*rng.pick(&["v=1", "v=256", "v=x", "v=+0", "v= 0"])).to_string(); }
             6 => { let k = rng.below(ls.len() as u64) as usize; ls[k] = format!("  {}  ", ls[k]); }
             7 => { for l in ls.iter_mut() { if l.starts_with("t=") { *l = (*rng.pick(&["t=0", "t=1 2 3", "t=a b", "t=18446744073709551615 0"])).to_string(); } } }
             _ => { let k = rng.below(ls.len() as u64) as usize; ls.insert(k, String::new()); }
-        }
+        } }
         let sep = if rng.chance(1, 4) { "\n" } else { "\r\n" };
         let text = ls.join(sep) + if rng.chance(1, 2) { sep } else { "" };
         round_trip_text(&mut run, &format!("mal:{}:{}", args.seed, i), "malformed", &text);
     }
     run.count_n("malformed_texts", nm);
+    // (3b) two faults at chosen positions: a line without `=` at every position × a faulty v= / o= / t= / m= line — the parser
+    // reports the FIRST faulty line
+    {
+        let lines: Vec<String> = base.split("\r\n").filter(|l| !l.is_empty()).map(|s| s.to_string()).collect();
+        let mut n2 = 0;
+        for k in 0..lines.len() {
+            for (prefix, bad) in [("v=", "v=x"), ("o=", "o=a b c"), ("t=", "t=a b"), ("m=", "m=audio 65536 RTP/AVP 0"), ("m=", "m=text 9 RTP/AVP 0")] {
+                let mut ls = lines.clone();
+                let Some(j) = (if prefix == "m=" { ls.iter().rposition(|l| l.starts_with(prefix)) } else { ls.iter().position(|l| l.starts_with(prefix)) }) else { continue };
+                if j == k { continue; }
+                ls[j] = bad.to_string();
+                ls[k] = "x".to_string();
+                round_trip_text(&mut run, &format!("mal2:{k}:{j}:{}", &bad[..3]), "malformed", &(ls.join("\r\n") + "\r\n"));
+                n2 += 1;
+            }
+        }
+        run.count_n("malformed_two_fault_texts", n2);
+    }
     // (4) primitives / helper functions
     prim_streams(&mut run, &mut rng, if args.tier_thorough { 5000 } else { 500 });
     run.finish();
